@@ -15,7 +15,7 @@ echo "== demo WITHOUT change"; (cd $WT && timeout 300 bash -c "$CMD") >/tmp/ev_$
 fi
 git -C $WT apply $SRC/change$N.diff || { echo "PATCH DOES NOT APPLY"; git -C /repo worktree remove --force $WT; exit 3; }
 if [ -z "$SKIP_CONFIRM" ]; then
-echo "== build + baseline WITH change"; (cd $WT && go build ./... && mv $DEST /tmp/ev_demo_hold.go && flock /tmp/suite.lock go test -vet=off -count=1 ./... 2>&1 | grep -v "no test files" | tail -12; mv /tmp/ev_demo_hold.go $DEST)
+echo "== build + baseline WITH change"; (cd $WT && go build ./... && mv $DEST /tmp/ev_demo_hold_${ID}_$N.go && flock /tmp/suite.lock go test -vet=off -count=1 ./... 2>&1 | grep -v "no test files" | tail -12; mv /tmp/ev_demo_hold_${ID}_$N.go $DEST)
 echo "== demo WITH change"; (cd $WT && timeout 300 bash -c "$CMD") >/tmp/ev_${ID}_${N}_after.log 2>&1; a=$?; tail -5 /tmp/ev_${ID}_${N}_after.log; echo "exit=$a"
 fi
 rm -f $WT/$DEST
